@@ -111,7 +111,7 @@ def replay_line(rec, form):
       if exp_view is not None and view != exp_view:
         mism.append((feat('view'), f'cfg[:] = {view}, expected {exp_view}'))
       if out == 'ok':
-        oa = store.flat_oargs(cfg, 9)
+        oa = store.flat_oargs(cfg, 9, sig)
         if oa != rec['oa']:
           mism.append((feat('oargs'), f'ordered_arguments = {oa}, expected {rec["oa"]}'))
     except Exception as e:  # pylint: disable=broad-except
@@ -381,7 +381,7 @@ def run_traces(v, workdir):
 def sensitivity_selfcheck(workdir):
   """Binding demo: a corrupted trace must be rejected by Trace_C03."""
   sig = [{'k': 'PK', 'd': False}, {'k': 'VP', 'd': False}]
-  S0 = {'pre': [0], 'va': [], 'ko': [0, 0], 'ex': [0, 0]}
+  S0 = {'pre': [0], 'va': [], 'ko': [0, 0], 'ex': [0, 0, 0, 0]}
   good = {'op': {'name': 'setitem', 'a': 0, 'b': 0, 'c': 0, 'vals': [5]},
           'out': 'ok', 'exc': '', 'ret': [], 'post': dict(S0, pre=[5]), 'stray': 0}
   bad = dict(good, post=dict(S0, pre=[6]))
